@@ -126,6 +126,10 @@ for db in payload['dbs']:
                                 row[name] = [r_[0], fl(r_[1])]
                             rows.append(row)
                     rec['simic'] = rows
+                    rec['icvals'] = {}
+                    for i in range(1, n + 1):
+                        r2 = call(wn.ic.information_content, ss[i], freq)
+                        rec['icvals'][i] = [r2[0], fl(r2[1])]
             if 'ic' in want:
                 rec['ic'] = []
                 for job in g.get('ic_jobs', []):
